@@ -151,6 +151,10 @@ def run_forward(c, rec):
     # the array may carry the model's own geometry object or an equal geometry built separately (equality of geometries is by value)
     dom_twin = make_geom(c["dom"])
     twin_ok = dom_twin == dom
+    if c["dom"]["kind"] not in ("mapped", "user"):
+        # geometries built from the same plain arguments are equal by value - also after one of them has been used
+        require(twin_ok, "two geometries built from the same arguments are not equal (after one of them has been used by the model)",
+                kind=c["dom"]["kind"])
     for label, arr in (("parameters", cuqi.array.CUQIarray(p.copy(), is_par=True, geometry=dom)),
                        ("function values", cuqi.array.CUQIarray(f.copy(), is_par=False, geometry=dom))) + \
             ((("parameters (equal geometry built separately)", cuqi.array.CUQIarray(p.copy(), is_par=True, geometry=dom_twin)),
@@ -168,6 +172,13 @@ def run_forward(c, rec):
         yi = np.asarray(ran.fun2par(F(np.asarray(dom.par2fun(P[:, i].copy())))), dtype=float)
         require(close(Ys.samples[:, i], yi, 1e-12), "forward(Samples) is not column-wise forward", i=i)
     require(maxdiff(S.samples, P) == 0, "forward altered the input samples")
+    # the same samples given as function values
+    refused, Fsamp = refuses(lambda: S.funvals)
+    if not refused:
+        refused, Yf = refuses(lambda: model.forward(Fsamp))
+        if not refused:
+            require(isinstance(Yf, cuqi.samples.Samples) and close(np.asarray(Yf.samples), np.asarray(Ys.samples), 1e-10),
+                    "forward(Samples of function values) differs from forward(Samples of parameters)")
 
 
 def run_gradient(c, rec):
